@@ -3,7 +3,7 @@
 # checks only rebuild what changed.
 cd /verif || exit 1
 mkdir -p .build evidence replays
-cp /repo/Cargo.lock kani/Cargo.lock 2>/dev/null
+python3 -c "import sys; sys.path.insert(0, '/verif'); from engine import kani_run; kani_run.prepare(kani_run.crate_dir())" || true
 ( cd kani && CARGO_NET_OFFLINE=true CARGO_TARGET_DIR=/verif/.build/kani-target timeout 1500 cargo kani --only-codegen >/verif/.build/setup-kani.log 2>&1 )
 ( cd kani && CARGO_NET_OFFLINE=true CARGO_TARGET_DIR=/verif/.build/replay-target timeout 900 cargo build --offline --bin replay >/verif/.build/setup-replay.log 2>&1 )
 exit 0
